@@ -66,7 +66,7 @@ func vfH_control_step() {
 	t := vfInt()
 	payload := vfBytes(n)
 	orig := append([]byte(nil), payload...)
-	deadline := vfTime()
+	deadline := vfDeadline()
 	wt := vfNewConn(nil)
 	wc := newConn(wt, isServer, 0, 8, nil, nil, nil)
 	err := wc.WriteControl(t, payload, deadline)
